@@ -84,8 +84,14 @@ MsOf(ev, f) == IF f \in DOMAIN ev THEN ev[f] ELSE 0
 GridOf(ev) == LET sm == MsOf(ev, "startMs")
                   span == (ev.end - ev.start) * 1000 + MsOf(ev, "endMs") - sm
                   stp == ev.step * 1000 + MsOf(ev, "stepMs")
-                  At(t) == <<ev.start + (t \div 1000), (t % 1000) * 1000000>>
-              IN IF stp = 0 THEN {At(sm)} ELSE {At(sm + k * stp) : k \in 0..(span \div stp)}
+                  sn == MsOf(ev, "startNs")                      \* the instants keep the start's sub-millisecond part (steps are whole ms)
+                  spanE == IF MsOf(ev, "endNs") < sn THEN span - 1 ELSE span
+                  At(t) == <<ev.start + (t \div 1000), (t % 1000) * 1000000 + sn>>
+              IN IF stp = 0 THEN {At(sm)} ELSE {At(sm + k * stp) : k \in 0..(spanE \div stp)}
+\* results carry millisecond timestamps: a grid instant is recognised by its millisecond (sub-millisecond parts are < 0.5 ms)
+MsTrunc(T) == <<T[1], (T[2] \div 1000000) * 1000000>>
+OnGrid(t) == \E T \in grid : MsTrunc(T) = t
+GridT(t) == CHOOSE T \in grid : MsTrunc(T) = t
 TopAt(T) == IF flat.on THEN LET outs == Outcomes(FlatTreeDev(flat.f)) IN
                  [must |-> {}, may |-> {[L |-> {}, v |-> o, sq |-> FALSE] : o \in outs \ {Absent}},
                   \* exactly one sample unless the chain may yield nothing (or its value is outside the exact arithmetic)
@@ -119,9 +125,9 @@ SortOk == IF ~IsSort \/ Cardinality(grid) # 1 \/ lastV = <<>> \/ Ev.val.t # "rat
           \* (projections of irrational values have large terms: their order is not compared exactly)
           ELSE IF ~SmallR([n |-> Ev.val.n, d |-> Ev.val.d]) \/ ~SmallR(lastV[1]) THEN TRUE
           ELSE IF expr.op = "sort" THEN ~RLt([n |-> Ev.val.n, d |-> Ev.val.d], lastV[1]) ELSE ~RLt(lastV[1], [n |-> Ev.val.n, d |-> Ev.val.d])
-PointOk == ~returned /\ Ev.t \in grid /\ (open \/ (FitsAt(Ev.t, Ev) # {} /\ SortOk))
+PointOk == ~returned /\ OnGrid(Ev.t) /\ (open \/ (FitsAt(GridT(Ev.t), Ev) # {} /\ SortOk))
 EvPoint == IsEv("Point") /\ PointOk /\ Accept
-           /\ matched' = (IF open THEN matched ELSE matched \cup {<<Ev.t, PairsOf(Ev.labels)>>})
+           /\ matched' = (IF open THEN matched ELSE matched \cup {<<GridT(Ev.t), PairsOf(Ev.labels)>>})
            /\ lastV' = (IF Ev.val.t = "rat" THEN <<[n |-> Ev.val.n, d |-> Ev.val.d]>> ELSE lastV)
            /\ UNCHANGED <<recs, expr, ents, open, flat, grid, expAt, returned>>
 
